@@ -145,7 +145,7 @@ def run(ctx):
         for v in bv + [n, 256 ** ((len("%x" % n) + 1) // 2) - 1]:
             add_helpers(n, v)
     # production orders
-    orders = [n for _, n in sigcommon.production_orders(ecdsa)] + sigcommon.EXTRA_ORDERS
+    orders = [n for _, n in sigcommon.production_orders(ecdsa)] + sigcommon.EXTRA_ORDERS + sigcommon.HUGE_ORDERS
     for n in orders:
         bv = boundary_values(n, rnd, 2 if quick else 12)
         pairs = [(a, b) for a in bv for b in bv]
